@@ -4,8 +4,8 @@ pseudo-terminal (the rest to files), feeds it the given input, and records what
 it wrote and how it ended. Used by the process world of the rrss checks for
 "stdin/stdout is a terminal" worlds. No third-party modules.
 
-usage: ptyrun.py STDIN_TTY STDOUT_TTY INPUT_FILE OUT_FILE ERR_FILE STATUS_FILE CWD -- ARGV...
-       STDIN_TTY, STDOUT_TTY: 0 or 1
+usage: ptyrun.py STDIN_TTY STDOUT_TTY STDERR_TTY INPUT_FILE OUT_FILE ERR_FILE STATUS_FILE CWD -- ARGV...
+       STDIN_TTY, STDOUT_TTY, STDERR_TTY: 0 or 1
 The child's environment is this process's environment.
 """
 import os, pty, select, subprocess, sys, termios, time
@@ -13,11 +13,11 @@ import os, pty, select, subprocess, sys, termios, time
 def main():
     a = sys.argv[1:]
     sep = a.index("--")
-    stdin_tty, stdout_tty = a[0] == "1", a[1] == "1"
-    input_file, out_file, err_file, status_file, cwd = a[2:7]
+    stdin_tty, stdout_tty, stderr_tty = a[0] == "1", a[1] == "1", a[2] == "1"
+    input_file, out_file, err_file, status_file, cwd = a[3:8]
     argv = a[sep + 1:]
     data = open(input_file, "rb").read()
-    m_in = s_in = m_out = s_out = None
+    m_in = s_in = m_out = s_out = m_err = s_err = None
     if stdin_tty:
         m_in, s_in = pty.openpty()
         t = termios.tcgetattr(s_in)
@@ -41,8 +41,19 @@ def main():
         child_out = s_out
     else:
         child_out = open(out_file, "wb")
-    err = open(err_file, "wb")
+    if stderr_tty:
+        m_err, s_err = pty.openpty()
+        t = termios.tcgetattr(s_err)
+        t[1] = 0
+        termios.tcsetattr(s_err, termios.TCSANOW, t)
+        err = s_err
+    else:
+        err = open(err_file, "wb")
     p = subprocess.Popen(argv, stdin=child_in, stdout=child_out, stderr=err, cwd=cwd, close_fds=True)
+    if s_err is not None:
+        os.close(s_err)
+    captured_err = bytearray()
+    err_open = m_err is not None
     if s_in is not None:
         os.close(s_in)
     if s_out is not None:
@@ -62,7 +73,7 @@ def main():
             pending += b"\x04"
             extra_eofs += 1
             last_eof = time.time()
-        rl = [m_out] if out_open else []
+        rl = ([m_out] if out_open else []) + ([m_err] if err_open else [])
         wl = [m_in] if (m_in is not None and pending) else []
         if not rl and not wl:
             if p.poll() is not None:
@@ -82,6 +93,15 @@ def main():
                 captured += chunk
             else:
                 out_open = False
+        if m_err is not None and m_err in r:
+            try:
+                chunk = os.read(m_err, 65536)
+            except OSError:
+                chunk = b""
+            if chunk:
+                captured_err += chunk
+            else:
+                err_open = False
         if m_in in w:
             # one line at a time: the terminal's line buffer is small
             nl = pending.find(b"\n")
@@ -91,9 +111,25 @@ def main():
                 del pending[:k]
             except OSError:
                 pending.clear()
-        if p.poll() is not None and not out_open:
+        if p.poll() is not None and not out_open and not err_open:
             break
-        if p.poll() is not None and out_open:
+        if p.poll() is not None and (out_open or err_open):
+            # drain the stderr terminal too
+            if err_open:
+                try:
+                    while True:
+                        rr, _, _ = select.select([m_err], [], [], 0.05)
+                        if not rr:
+                            break
+                        chunk = os.read(m_err, 65536)
+                        if not chunk:
+                            break
+                        captured_err += chunk
+                except OSError:
+                    pass
+                err_open = False
+            if not out_open:
+                break
             # drain what is left
             try:
                 while True:
@@ -115,6 +151,8 @@ def main():
     rc = p.wait()
     if stdout_tty:
         open(out_file, "wb").write(bytes(captured))
+    if stderr_tty:
+        open(err_file, "wb").write(bytes(captured_err))
     open(status_file, "w").write("timeout\n" if timed_out else ("%d\n" % rc))
 
 main()
